@@ -421,7 +421,7 @@ func drawSpec(t *rapid.T) reqSpec {
 // mutation of one field of a valid request (re-signing nothing: intake does not verify signatures).
 func mutations() []string {
 	return []string{"none", "hash-other-alg", "hash-malformed", "hash-too-long", "hash-unknown-code", "alg-disabled", "crv-disabled", "nonce-wrong-size", "patch-disabled", "reveal-mismatch",
-		"alg-case-variant", "crv-case-variant", "short-digest", "reveal-of-other-key", "reveal-respelled", "patch-unknown-action", "delta-missing", "signed-data-missing"}
+		"alg-case-variant", "crv-case-variant", "short-digest", "reveal-of-other-key", "reveal-of-other-key-signed-own", "reveal-respelled", "patch-unknown-action", "delta-missing", "signed-data-missing"}
 }
 
 func mutate(t *rapid.T, s reqSpec, mut string, p *Params) []byte {
@@ -511,6 +511,14 @@ func mutate(t *rapid.T, s reqSpec, mut string, p *Params) []byte {
 			if sg != nil {
 				req["revealValue"] = asm.Reveal(keys.Get(s.kt, "c10", 9), s.code)
 			}
+		case "reveal-of-other-key-signed-own":
+			// the request names another key's hash while the signed data repeats, in a revealValue member of its
+			// own, the hash of the key that signs
+			if sg != nil {
+				req["revealValue"] = asm.Reveal(keys.Get(s.kt, "c10", 9), s.code)
+				own := asm.Reveal(sg.RevealKey, s.code)
+				resign(req, sg, func(signed map[string]interface{}, _ map[string]interface{}) { signed["revealValue"] = own })
+			}
 		case "reveal-respelled":
 			// another base64url spelling of the right hash: unused trailing bits of the last character, or a line break
 			if rv, ok := req["revealValue"].(string); ok && sg != nil && len(rv) > 2 {
@@ -558,7 +566,7 @@ func swapCase(s string) string {
 }
 
 func TestAcceptedImpliesRules(t *testing.T) {
-	ev.Rule(chkImplies, "rapid: valid requests of the four types (5 key types, both hash algorithms, optional nonce of right/wrong size, kid, window, 1-3 valid patches over all eight actions) with one drawn field mutation (hash field: other algorithm, malformed, too long, unknown code, short digest; signature algorithm / key curve disabled or case-variant; nonce size; patch action disabled / unknown; reveal value not the hash of the key or another base64url spelling of it; members removed) under a configuration adjusted by the mutation; oracle: Parse accepts => the independent predicate finds no violated rule (request size, canonical delta size, every hash field well-formed / allowed / within length, algorithm, curve, nonce size, patch actions, reveal == hash of key); accept rate is reported; non-trivial = a mutated request")
+	ev.Rule(chkImplies, "rapid: valid requests of the four types (5 key types, both hash algorithms, optional nonce of right/wrong size, kid, window, 1-3 valid patches over all eight actions) with one drawn field mutation (hash field: other algorithm, malformed, too long, unknown code, short digest; signature algorithm / key curve disabled or case-variant; nonce size; patch action disabled / unknown; reveal value not the hash of the key (also with a revealValue member inside the signed data that does match) or another base64url spelling of it; members removed) under a configuration adjusted by the mutation; oracle: Parse accepts => the independent predicate finds no violated rule (request size, canonical delta size, every hash field well-formed / allowed / within length, algorithm, curve, nonce size, patch actions, reveal == hash of key); accept rate is reported; non-trivial = a mutated request")
 	ev.Rapid(t, chkImplies, 1500, 15000, func(t *rapid.T) {
 		s := drawSpec(t)
 		p := baseParams()
